@@ -378,8 +378,17 @@ def regex_prefix_match(node, text):
     return bool(ends(node, 0))
 
 
+def _has_node(node, kind):
+    if node["t"] == kind:
+        return True
+    children = node.get("items", []) if node["t"] in ("seq", "alt") else [node["node"]] if node["t"] == "rep" else []
+    return any(_has_node(child, kind) for child in children)
+
+
 def _regex(field, fmt, cell):
-    if "\n" in cell or "\r" in cell:
+    # a line feed in the value is judged unless the rule says '$' (whether that means the end of the value or of a
+    # line is left open); '.' stands for any character but a line feed, as in every regular expression dialect
+    if "\r" in cell or ("\n" in cell and _has_node(field["model"]["ast"], "eol")):
         return ("neutral", "line break in value")
     if regex_prefix_match(field["model"]["ast"], cell):
         return ("accept", cell)
